@@ -83,6 +83,9 @@ std::map<std::string, std::string> Executor::ctx_of(Obj& o) {
   c["scaled"] = s.peekIsRealLPScaled() ? "1" : "0";
   c["stopped"] = o.stopped_since_change ? "1" : "0";
   c["nonbasic_free_row"] = o.free_row_nonbasic ? "1" : "0";
+  c["polishing"] = std::to_string(s.getInt(P::i("solution_polishing")));
+  { int m = s.getInt(P::i("solvemode")); c["exact"] = (m == 2 || (m == 1 && !(s.getReal(P::r("feastol")) >= 1e-9 && s.getReal(P::r("opttol")) >= 1e-9))) ? "1" : "0"; }
+  c["update"] = s.getInt(P::i("factor_update_type")) == 0 ? "ETA" : "FT";
   return c;
 }
 
